@@ -1049,3 +1049,38 @@ func StoreBetween(cell ssa.Value, from, to ssa.Instruction) bool {
 	}
 	return false
 }
+
+// ReachingStoresCut is ReachingStores on the CFG with the edges selected by cut removed.
+// entry reports whether the function entry reaches the load without passing any store.
+func ReachingStoresCut(load *ssa.UnOp, cut func(from *ssa.BasicBlock, succ int) bool) (stores []*ssa.Store, entry bool) {
+	cell := load.X
+	seen := map[*ssa.BasicBlock]bool{}
+	var scan func(b *ssa.BasicBlock, from int)
+	scan = func(b *ssa.BasicBlock, from int) {
+		for i := from; i >= 0; i-- {
+			if st, ok := b.Instrs[i].(*ssa.Store); ok && st.Addr == cell {
+				stores = append(stores, st)
+				return
+			}
+		}
+		if len(b.Preds) == 0 {
+			entry = true
+		}
+		for _, p := range b.Preds {
+			// is the edge p->b cut?
+			allCut := true
+			for si, s := range p.Succs {
+				if s == b && !cut(p, si) {
+					allCut = false
+				}
+			}
+			if allCut || seen[p] {
+				continue
+			}
+			seen[p] = true
+			scan(p, len(p.Instrs)-1)
+		}
+	}
+	scan(load.Block(), idx(load)-1)
+	return
+}
